@@ -627,8 +627,13 @@ class AMat:
         if self.ndim == 1 and shape == (-1, 1):
             return AMat(self.term, (self.shape[0], 1), self.dtype)
         if self.ndim == 2 and shape == (-1,):
-            ok = dim_eq(self.shape[1], 1)
-            if bool(ok):
+            c1 = SInt.lift(self.shape[1]).concrete()
+            r1 = SInt.lift(self.shape[0]).concrete()
+            if c1 == 1:
+                return AMat(self.term, (self.shape[0],), self.dtype)
+            if r1 == 1:
+                return AMat(alg.tr(self.term), (self.shape[1],), self.dtype)
+            if bool(dim_eq(self.shape[1], 1)):
                 return AMat(self.term, (self.shape[0],), self.dtype)
             raise Unsupported("reshape(-1) of a matrix with more than one column")
         if self.ndim == 1 and shape == (-1,):
